@@ -29,6 +29,7 @@ const (
 	KindSupervisor
 	KindPool
 	KindRaw
+	KindWeb // act.WebWorker used as a plain process (its mailbox loop is a copy of the actor's)
 )
 
 const (
@@ -98,7 +99,7 @@ var stopReasons = []error{gen.TerminateReasonNormal, gen.TerminateReasonShutdown
 // Generate draws a scenario. weights selects which op kinds may appear.
 func Generate(t *rapid.T, scheduled bool, allowed []int) Scenario {
 	sc := Scenario{Scheduled: scheduled}
-	sc.Kind = rapid.IntRange(KindActor, KindRaw).Draw(t, "kind")
+	sc.Kind = rapid.IntRange(KindActor, KindWeb).Draw(t, "kind")
 	sc.State = rapid.SampledFrom([]int{StateIdle, StateInHandler, StateWaitResponse, StateIdle, StateInHandler, StateWaitResponse,
 		StateIdle, StateInHandler, StateWaitResponse, StateIdle, StateInHandler, StateWaitResponse,
 		StateIdle, StateInHandler, StateWaitResponse, StateIdle, StateInHandler, StateWaitTimeout, StateWaitTimeout}).Draw(t, "state")
@@ -203,6 +204,8 @@ func Run(sc Scenario) (res *Result, err error) {
 			}})
 	case KindRaw:
 		factory = kit.RawFactory("recv", probe, spinNs)
+	case KindWeb:
+		factory = kit.WebFactory(&kit.WebConfig{Label: "recv", Probe: probe, SpinNs: spinNs})
 	case KindPool:
 		factory = kit.PoolFactory(&kit.PoolConfig{Label: "recv", Probe: probe, SpinNs: spinNs,
 			Options: func(args ...any) (act.PoolOptions, error) {
@@ -271,6 +274,11 @@ func Run(sc Scenario) (res *Result, err error) {
 		err = node.Send(recv, kit.DoRaw{F: func(r *kit.Raw) {
 			alias, _ = r.CreateAlias()
 			r.MonitorEvent(gen.Event{Name: evName})
+		}, Done: setupDone})
+	case KindWeb:
+		err = node.Send(recv, kit.DoWeb{F: func(w *kit.Web) {
+			alias, _ = w.CreateAlias()
+			w.MonitorEvent(gen.Event{Name: evName})
 		}, Done: setupDone})
 	}
 	if err != nil {
@@ -355,7 +363,7 @@ func Run(sc Scenario) (res *Result, err error) {
 				var to any = recv
 				if o.Mode == 1 {
 					to = gen.Atom("recv")
-				} else if o.Mode == 2 && (sc.Kind <= KindActorTrap || sc.Kind == KindRaw) {
+				} else if o.Mode == 2 && (sc.Kind <= KindActorTrap || sc.Kind == KindRaw || sc.Kind == KindWeb) {
 					to = alias
 				}
 				payload := kit.Numbered{ID: i*100 + j}
